@@ -28,7 +28,7 @@ func dispatch(kind string, args []*Sexp) (out *Sexp) {
 		return runC15(kind, args)
 	}
 	switch kind {
-	case "skelvm", "skelvmb", "skelsem", "skelsrc":
+	case "skelvm", "skelvmb", "skelvmt", "skelsem", "skelsrc":
 		return runC03(kind, args)
 	}
 	switch kind {
